@@ -11,8 +11,8 @@ from mc.result import Result
 PROPERTY = 'C16'
 LEVEL = 'exploration'
 CHUNK = 40
-RULE = ('suite hierarchies (flat with plain names / globs, one and two sub-suites, depth 2, directories with exactly.suite, sub/*.case, [suites] globs matching directories and suite files) x every assignment of the 12 verdicts '
-        '(PASS, FAIL, XFAIL, XPASS, SKIPPED, HARD_ERROR, VALIDATION_ERROR, instruction SYNTAX_ERROR, act-phase SYNTAX_ERROR, INTERNAL_ERROR, FILE_ACCESS_ERROR, case file that is not UTF-8) to <= 2 cases '
+RULE = ('suite hierarchies (flat with plain names / globs, one and two sub-suites, depth 2, directories with exactly.suite, sub/*.case, [suites] globs matching directories and suite files) x every assignment of the 13 verdicts '
+        '(PASS, FAIL, XFAIL, XPASS, SKIPPED, HARD_ERROR, VALIDATION_ERROR, instruction SYNTAX_ERROR, act-phase SYNTAX_ERROR, INTERNAL_ERROR, FILE_ACCESS_ERROR, case file that is not UTF-8, FAIL whose message quotes control characters) to <= 2 cases '
         '(3 cases on the flat hierarchy; thorough: 3 everywhere) x reporter {progress, junit}; plus invalid suites (listed twice in several ways, diamond, cycle, self reference, '
         'missing case / suite, syntax error, unknown section, suite file that is not UTF-8, names below a regular file, symbolic-link loops, patterns that are not valid glob patterns); non-trivial = at least one case is not PASS or the hierarchy has sub-suites or is invalid')
 ASSUMPTIONS = [
@@ -21,7 +21,7 @@ ASSUMPTIONS = [
 ]
 
 VERDICTS = ('PASS', 'FAIL', 'XFAIL', 'XPASS', 'SKIPPED', 'HARD_ERROR', 'VALIDATION_ERROR', 'SYNTAX_ERROR', 'ACT_SYNTAX_ERROR', 'INTERNAL_ERROR', 'FILE_ACCESS_ERROR',
-            'UNDECODABLE')
+            'UNDECODABLE', 'FAIL_CTRL')
 SUCCESS = ('PASS', 'SKIPPED', 'XFAIL')
 
 
@@ -49,14 +49,17 @@ def case_text(verdict, marker):
         return '[assert]\nstub main EXC\n[act]\n%s\n' % act
     if verdict == 'FILE_ACCESS_ERROR':
         return '[setup]\nincluding no-such-file.xly\n[act]\n%s\n' % act
+    if verdict == 'FAIL_CTRL':
+        # a failing assertion whose message quotes control characters printed by the action
+        return "[act]\n%s ctrl\n[assert]\nstdout equals 'x'\n" % act
     if verdict == 'UNDECODABLE':
         # a case file that cannot be read as text (not UTF-8): processing the case fails as a whole
         return b'[act]\n% mark \xff\xfe\n'
     raise ValueError(verdict)
 
 
-RUNS_ACT = ('PASS', 'FAIL', 'XFAIL', 'XPASS', 'INTERNAL_ERROR')
-IDENT = {'ACT_SYNTAX_ERROR': 'SYNTAX_ERROR', 'UNDECODABLE': 'INTERNAL_ERROR'}
+RUNS_ACT = ('PASS', 'FAIL', 'XFAIL', 'XPASS', 'INTERNAL_ERROR', 'FAIL_CTRL')
+IDENT = {'ACT_SYNTAX_ERROR': 'SYNTAX_ERROR', 'UNDECODABLE': 'INTERNAL_ERROR', 'FAIL_CTRL': 'FAIL'}
 
 # hierarchy: name -> (files builder).  A hierarchy is {suite file path: {'suites': [lines], 'cases': [lines]}} plus the case slots
 #   slots: ordered list of case paths in *expected processing order* grouped by suite: [(suite display name, [case paths])]
@@ -146,6 +149,10 @@ def cases(tier):
             yield ('invalid', name, rep)
 
 
+def _mark(rec):
+    return {'exit': 0, 'out': 'a\x1bb\x01\x0c \ufffe' if 'ctrl' in rec['args'] else ''}
+
+
 def write_suite(w, path, spec):
     if spec is None:
         w.write(path, 'not a suite\n')
@@ -176,6 +183,7 @@ def run(case) -> Result:
     seam = procseam.SEAM
     seam.reset()
     seam.default = {'exit': 0}
+    seam.script['mark'] = _mark
     mp = stubprog.main_program()
     if case[0] == 'invalid':
         return _invalid(res, case, w, seam, mp)
@@ -185,6 +193,7 @@ def run(case) -> Result:
         w.reset()
         seam.reset()
         seam.default = {'exit': 0}
+        seam.script['mark'] = _mark
         _run_one(res, case, w, seam, mp, creation)
     return res
 
